@@ -190,6 +190,7 @@ MUTANTS = [
  ("c01-grid-product", "C01", "", "html/boxes/build.go", "\tif gridWidth == 0 || gridHeight == 0 {\n\t\t// Don’t bother with empty tables", "\tif gridWidth*gridHeight == 0 {\n\t\t// Don’t bother with empty tables"),
  ("c01-nesting-size-compare", "C01", "", "css/validation/validation.go", "\t\t\tif budget := maxNestedSelectorSize; exceedsSize(declarationPrelude, &budget) {\n", "\t\t\tif countTokens := func(l []Token) int { b := maxNestedSelectorSize + 1; exceedsSize(l, &b); return maxNestedSelectorSize + 1 - b }; countTokens(declarationPrelude) > maxNestedSelectorSize {\n"),
  ("c18-use-len-form", "C18", "", "svg/elements.go", "\tif node.attrs[\"href\"] == \"\" { // nothing is referenced\n", "\tif len(node.attrs[\"href\"]) == 0 {\n"),
+ ("c01-nesting-size-leq", "C01", "", "css/validation/validation.go", "\t\t\tif budget := maxNestedSelectorSize; exceedsSize(declarationPrelude, &budget) {\n", "\t\t\tif countTokens := func(l []Token) int { b := maxNestedSelectorSize + 1; exceedsSize(l, &b); return maxNestedSelectorSize + 1 - b }; !(countTokens(declarationPrelude) <= maxNestedSelectorSize) {\n"),
 ]
 
 def main():
